@@ -21,10 +21,10 @@ func init() { vk.Children["c13"] = child }
 
 func universeConfigs(r *vk.Run) []Config {
 	rng := r.Rand("universes")
-	n := r.N(6, 80)
+	n := r.N(8, 80)
 	var out []Config
 	for i := 0; i < n; i++ {
-		c := Config{ID: i, Blocks: uint64(r.N(60, 300)), BlockTime: time.Duration(2+rng.Intn(4)) * time.Millisecond, DATime: time.Duration(3+rng.Intn(8)) * time.Millisecond,
+		c := Config{ID: i, Blocks: uint64(r.N(100, 300)), BlockTime: time.Duration(2+rng.Intn(4)) * time.Millisecond, DATime: time.Duration(3+rng.Intn(8)) * time.Millisecond,
 			Lazy: i%3 == 2, DAFaultPct: []int{0, 10, 30}[rng.Intn(3)], DADelayUs: []int{0, 200, 2000}[rng.Intn(3)], Seed: rng.Int63()}
 		if i%4 == 1 {
 			c.MaxPending = uint64(2 + rng.Intn(8))
